@@ -64,10 +64,11 @@ type Run struct {
 	deadline   time.Time
 	ReplayPath string
 
-	job        string
-	counters   map[string]int64
-	wviol      map[string]*wViol
-	wviolOrder []string
+	job         string
+	autoSamples []any
+	counters    map[string]int64
+	wviol       map[string]*wViol
+	wviolOrder  []string
 }
 
 // New parses the common flags (--tier, --replay) and prepares a run.
@@ -156,6 +157,17 @@ func (r *Run) Add(k string, n int64) {
 func (r *Run) Eval(key string, nontrivial bool) {
 	r.mu.Lock()
 	r.evals++
+	// actual cases of this run, written out at exponentially spaced positions of the enumeration
+	if nontrivial && len(r.autoSamples) < 6 {
+		switch r.evals {
+		case 1, 7, 50, 400, 3000, 25000, 200000:
+			k := key
+			if len(k) > 300 {
+				k = k[:300] + "..."
+			}
+			r.autoSamples = append(r.autoSamples, map[string]any{"case": k, "position_in_enumeration": r.evals})
+		}
+	}
 	if nontrivial {
 		h := sha1.Sum([]byte(key))
 		var k [12]byte
@@ -241,10 +253,11 @@ func (r *Run) Finish() {
 	cov["evaluations"] = r.evals
 	cov["distinct_nontrivial"] = len(r.nontrivial)
 	cov["rule"] = r.rule
-	if len(r.samples) == 0 {
-		r.samples = []any{"(no sample recorded)"}
+	all := append(append([]any{}, r.autoSamples...), r.samples...)
+	if len(all) == 0 {
+		all = []any{"(no sample recorded)"}
 	}
-	cov["samples"] = r.samples
+	cov["samples"] = all
 	cov["exhaustive"] = r.exhaustive
 	for k, v := range r.counters {
 		cov[k] = v
